@@ -1,6 +1,136 @@
-(* Props/C06.v -- placeholder while the correspondence is brought up *)
+(* Props/C06.v -- Translating between HTTP versions preserves message semantics.
+   Statements only; each is closed by [exact] of a lemma proved in Proofs/HttpTranslate*.v.
+   The model (Model/HttpTranslate.v) describes the tree repaired by fixes/C06-*.diff.  The dependency of the
+   no-splitting clause on hyper-h2 is explicit: down_request / down_response start with the boolean contract
+   h2_validate (what h2.utilities.validate_headers rejects) and the content-length bookkeeping of H2Stream. *)
 From Coq Require Import List Bool NArith ZArith.
-From MV Require Import Base.Bytes Model.Http1Msg Model.HttpTranslate.
-Theorem C06_placeholder : h2_validate false false nil = false.
-Proof. reflexivity. Qed.
-Print Assumptions C06_placeholder.
+From MV Require Import Base.Bytes Model.Http1Msg Model.Rfc9112 Model.HttpTranslate Gen.StatusReasons
+  Proofs.HttpTranslateBase Proofs.HttpTranslateReq Proofs.HttpTranslateResp Proofs.HttpTranslateMain.
+Import ListNotations.
+
+(* The contract: in a header block that h2 accepts (request, response or trailers) no value -- pseudo-headers
+   included -- contains CR, LF or NUL, and every name consists of bytes 0x21..0x7e. *)
+Theorem C06_contract_no_ctl : forall r t h n v, h2_validate r t h = true -> In (n, v) h ->
+  existsb is_bad_value_char v = false /\ forallb (fun c => (32 <? bN c)%N && (bN c <? 127)%N) n = true.
+Proof. exact h2_validate_no_ctl. Qed.
+Print Assumptions C06_contract_no_ctl.
+
+(* The model never leaves a case undecided: blocks accepted by the contract do not reach the Transfer-Encoding
+   branch of validate_headers (which is C01 territory). *)
+Theorem C06_request_decided : forall pa h body tr, down_request pa h body tr <> OUndecided.
+Proof. exact down_request_decided. Qed.
+Print Assumptions C06_request_decided.
+Theorem C06_response_decided : forall m h body tr, down_response m h body tr <> OUndecided.
+Proof. exact down_response_decided. Qed.
+Print Assumptions C06_response_decided.
+
+(* HTTP/2 -> HTTP/1, requests.  Full-strength claim: whatever is forwarded is exactly one HTTP/1 request with the
+   same method, path, fields and body.  It is false of the faithful model (known findings
+   request-content-length-without-body and request-trailers-crash): *)
+Theorem C06_request_one_message_refuted :
+  exists out, down_request (fun _ => true) (W_REQ [(CONTENT_LENGTH, [x35])]) None None = OForward out false
+              /\ parse_requests strict 2 out = PErr Incomplete.
+Proof. exact request_length_witness. Qed.
+Print Assumptions C06_request_one_message_refuted.
+Theorem C06_request_trailers_refuted :
+  down_request (fun _ => true) (W_REQ []) (Some [x61]) (Some [([x78], [x31])]) = OCrashTrailers.
+Proof. exact request_trailers_witness. Qed.
+Print Assumptions C06_request_trailers_refuted.
+
+(* ... and holds under guards that are the complement of those findings: no trailers; END_STREAM on HEADERS only
+   without a positive content-length (length_guard).  cookie_guard (the last of several cookie fields is not empty)
+   is not a finding: with an empty last cookie the joined value ends in "; " and the reader trims that space, so
+   the field it returns is not literally the one written.  For every url.parse_authority verdict [pa], every header
+   block, body, and every recipient option [o] (bare LF, CR as SP, obs-fold accepted or not) the reference reader
+   finds exactly one request: method and target are the :method and :path values, version HTTP/1.1, the body is the
+   DATA payload (framed by Content-Length, or chunked when the block had none), no trailers, nothing left over. *)
+Theorem C06_request_one_message_partial : forall pa h body out c,
+  down_request pa h body None = OForward out c ->
+  length_guard None h body -> cookie_guard h ->
+  exists r, parse_h2_request_headers pa h = Some r /\
+    forall o, parse_requests o 2 out
+      = POk [mkRefReq (hq_method r) (hq_path r) V_HTTP11
+                      (h1_fields (strip_r r) (is_nil (content_of body))) (content_of body) []].
+Proof. exact down_request_one_message. Qed.
+Print Assumptions C06_request_one_message_partial.
+
+(* What that request means: method / scheme / path / authority are the pseudo-header values of the block; the Host
+   field is the :authority value (the host field of the block when there is no :authority; h2 guarantees they agree
+   when both are present); several cookie fields are joined with "; "; every other end-to-end field (all names but
+   host, cookie, transfer-encoding, expect) is kept with its spelling, value and order. *)
+Theorem C06_request_semantics : forall pa h body out c,
+  down_request pa h body None = OForward out c ->
+  exists r, parse_h2_request_headers pa h = Some r /\
+    (exists q, h = q ++ hq_fields r /\ Forall (fun x => is_pseudo (fst x) = true) q
+       /\ In (P_METHOD, hq_method r) q /\ In (P_SCHEME, hq_scheme r) q /\ In (P_PATH, hq_path r) q
+       /\ (hq_authority r = [] \/ In (P_AUTHORITY, hq_authority r) q)) /\
+    forall es, let fs := h1_fields (strip_r r) es in
+      field_values N_HOST fs
+        = (if negb (hcontains N_HOST_CAP (hq_fields r)) && nonempty (hq_authority r)
+           then [hq_authority r] else field_values N_HOST (hq_fields r))
+      /\ field_values N_COOKIE fs
+        = match get_all N_COOKIE (hq_fields r) with (_ :: _ :: _) as l => [join_semi l] | l => l end
+      /\ forall k, k <> N_HOST -> k <> N_COOKIE -> k <> TRANSFER_ENCODING -> k <> N_EXPECT ->
+           filter (name_ci k) fs = filter (name_ci k) (hq_fields r).
+Proof. exact down_request_semantics. Qed.
+Print Assumptions C06_request_semantics.
+
+(* HTTP/2 -> HTTP/1, responses.  Refuted by the known findings body-after-bodiless-response, status-not-3-digits
+   and response-content-length-without-body ... *)
+Theorem C06_response_bodiless_refuted :
+  exists out c p, down_response W_GET [(P_STATUS, [x32;x30;x34])] (Some [x61;x62]) None = OForward out c
+              /\ parse_response strict W_GET out = POk (p, [x61;x62]).
+Proof. exact response_bodiless_witness. Qed.
+Print Assumptions C06_response_bodiless_refuted.
+Theorem C06_response_status_refuted :
+  exists out c, down_response W_GET [(P_STATUS, [x39;x39;x39;x39;x39])] None None = OForward out c
+              /\ parse_response strict W_GET out = PErr Invalid.
+Proof. exact response_status_witness. Qed.
+Print Assumptions C06_response_status_refuted.
+Theorem C06_response_length_refuted :
+  exists out c, down_response W_GET [(P_STATUS, [x32;x30;x30]); (CONTENT_LENGTH, [x35])] None None = OForward out c
+              /\ parse_response strict W_GET out = PErr Incomplete.
+Proof. exact response_length_witness. Qed.
+Print Assumptions C06_response_length_refuted.
+
+(* ... and true under exactly their complement (status 100..999, no DATA where HTTP/1 allows no body, length_guard),
+   for an upper-case request method [m] (lower-case head is the C01 finding): the client reads one response with
+   that status, the reason phrase of status_codes.RESPONSES, the same fields and body, nothing left over, and it is
+   delimited by connection close exactly when mitmproxy closes the connection ([c]). *)
+Theorem C06_response_one_message_partial : forall m h body out c,
+  down_response m h body None = OForward out c ->
+  exists st fields, parse_h2_response_headers h = Some (st, fields) /\
+    ((100 <= st <= 999)%Z -> upper m = m -> length_guard (Some m) h body ->
+     (bodiless m st = true -> content_of body = []) ->
+     forall o, parse_response o m out
+       = POk (mkRefResp V_HTTP11 (Z.to_N st) (reason_of st RESPONSES) fields (content_of body) [] c, [])).
+Proof. exact down_response_one_message. Qed.
+Print Assumptions C06_response_one_message_partial.
+
+(* HTTP/1 -> HTTP/2: what format_h2_request_headers writes for an HTTP/1 request is read back by
+   parse_h2_request_headers as the same method, scheme and path, the authority (or, without one, the Host value),
+   and the fields lower-cased, stripped and without connection-specific ones. *)
+Theorem C06_upgrade_request_roundtrip : forall pa n m s a p f,
+  valid_method m = true -> valid_path p = true ->
+  (up_authority a f <> [] -> pa (up_authority a f) = true) ->
+  Forall (fun x => is_pseudo (fst x) = false) (up_fields a f) ->
+  parse_h2_request_headers pa (format_h2_request_headers n false m s a p f)
+  = Some (mkH2Req m s (up_authority a f) p (up_fields a f)).
+Proof. exact format_parse_request. Qed.
+Print Assumptions C06_upgrade_request_roundtrip.
+
+(* the status code survives the upgrade, for every code 0..999 (complete sweep) and every field list *)
+Theorem C06_upgrade_response_status : forall st f, (0 <= st <= 999)%Z ->
+  Forall (fun x => is_pseudo (fst x) = false) (normalize_h1_headers f) ->
+  parse_h2_response_headers (format_h2_response_headers true false st f) = Some (st, normalize_h1_headers f).
+Proof. exact format_parse_response. Qed.
+Print Assumptions C06_upgrade_response_status.
+
+(* the hypotheses of the request theorem are satisfiable on a non-trivial value: POST, two cookies, a body that
+   looks like a request, no content-length -> forwarded chunked *)
+Theorem C06_nonvacuous :
+  (exists out, down_request (fun _ => true) sample_block (Some sample_body) None = OForward out false
+     /\ contains CHUNKED out = true)
+  /\ length_guard None sample_block (Some sample_body) /\ cookie_guard sample_block.
+Proof. exact sample_ok. Qed.
+Print Assumptions C06_nonvacuous.
